@@ -1444,6 +1444,8 @@ def parse_str(writer, text, index, *cwd):
         s = s.rstrip()
     if flags & 2:
         s = s.lstrip()
+    if writer.fields['mode']['html']:
+        s = html.escape(s, False)
     if flags & 4:
         while '  ' in s:
             i, j = re.search(' {2,}', s).span()
